@@ -93,7 +93,36 @@ def hostile_cases(rnd):
                      ("a = int .plus 9223372036854775807", "1"), ("a = \"a\" .det \"b\"", "\"ab\""), ("a = tstr .b64u bstr", "\"!!\""), ("a = tstr .printf ([\"%s\", \"x\"])", "\"x\"")):
         ops.append({"op": "validate_json", "cddl": sch, "json": doc})
         ops.append({"op": "parse", "cddl": sch + "\n", "roundtrip": True})
+    # rule cycles that pass through generic instantiations (type and group generics, arguments that refer back)
+    cyc = ["t1 = gen1<{}>\ngen1<T> = (t1 / T / t1)", "a = g<a>\ng<T> = [* T] / T", "a = g<h<a>>\ng<T> = T / nil\nh<T> = [T]", "a = [gg<a>]\ngg<T> = (T, ? T)",
+           "a = g<int>\ng<T> = g<T> / T", "a = g<int>\ng<T> = h<T>\nh<T> = g<T>", "a = {* tstr => g<a>}\ng<T> = T / [* T]", "a = g<a, a>\ng<K, V> = {* K => V} / int",
+           "a = ~g<a>\ng<T> = [T]", "a = &gg<a>\ngg<T> = (x: T, y: nil)"]
+    for sch in cyc:
+        for doc in ("1", "[]", "[[1]]", "{}", "{\"k\":{\"k\":1}}", "null", "[1,[1,[1]]]"):
+            ops.append({"op": "validate_json", "cddl": sch + "\n", "json": doc})
+            ops.append({"op": "validate_cbor", "cddl": sch + "\n", "hex": bytes(C.encode(_val_of_json(doc))).hex()})
+        ops.append({"op": "parse", "cddl": sch + "\n", "roundtrip": True})
     return ops
+
+
+def _val_of_json(text):
+    import json as _j
+
+    def conv(x):
+        if x is None:
+            return dict(C.NULL)
+        if isinstance(x, bool):
+            return C.mk_bool(x)
+        if isinstance(x, int):
+            return C.mk_int(x)
+        if isinstance(x, float):
+            return C.mk_float(x)
+        if isinstance(x, str):
+            return C.mk_text(x)
+        if isinstance(x, list):
+            return C.mk_arr([conv(i) for i in x])
+        return C.mk_map([(C.mk_text(k), conv(v)) for k, v in x.items()])
+    return conv(_j.loads(text))
 
 
 def random_cases(rnd, n, big):
